@@ -175,6 +175,49 @@ def o43(ctx):
             ctx.finding(cq, calls[0] if calls else fc, f"{cq} must pass its {src_param} option on to {callee}", calls[0] if calls else fc, mc)
 
 
+def o44(ctx):
+    """the via-file path returns the block of the file as it stands: same rows, same order"""
+    from sa.lib import from_py
+    q = CLS + ".read_in"
+    m, fn = ctx.prog.func(q)
+    ctx.touched(q)
+    cols = list(ctx.prog.class_attr(CLS, "columns"))
+    blk = Frame({c: sym("file:" + c) for c in cols}, cols, prefix="file:", name="block")
+    blk.space = Space("block of the file", how="root")
+    blk.labels_positional = True
+    summ = {"cryocat.starfileio.Starfile.read": lambda it, a, k, n, fr: Seq([Seq([blk], "list"), from_py(["data_stopgap_motivelist"]), Seq([], "list")], "tuple"),
+            "cryocat.starfileio.Starfile.get_specifier_id": lambda it, a, k, n, fr: K(0)}
+    it = Interp(ctx.prog, summaries=summ)
+    r = it.run(q, [K("in.star")], {})
+    if not isinstance(r.ret, Frame):
+        raise Unsupported("StopgapMotl.read_in does not return the block table", fn)
+    same_rows_same_order(ctx, q, r.ret, blk, "StopgapMotl.read_in returns the data_stopgap_motivelist block", fn, m)
+    for c in cols:
+        ctx.count(1)
+        if c not in r.ret.cols or r.ret.cols[c] != blk.cols[c]:
+            ctx.finding(q, f"column {c}", f"read_in must hand on column {c} of the file unchanged", fn, m)
+    # import: the particle list keeps the order of the STOPGAP table
+    it2 = Interp(ctx.prog, assume=assume_map({"keep_halfsets": False}))
+    me = Obj(CLS, {"df": motl_frame(ctx.prog), "sg_df": Frame(name="sg")})
+    me.attrs["df"].labels_adopt = True
+    sgf = Frame({c: sym("sg:" + c) for c in cols}, cols, prefix="sg:", name="stopgap_df")
+    sgf.space = Space("sg", how="root")
+    q2 = CLS + ".convert_to_motl"
+    m2, fn2 = ctx.prog.func(q2)
+    it2.run(q2, [sgf], {}, self_obj=me)
+    same_rows_same_order(ctx, q2, me.attrs["df"], sgf, "convert_to_motl keeps the particle order of the STOPGAP table", fn2, m2)
+    # export
+    q3 = CLS + ".convert_to_sg_motl"
+    m3, fn3 = ctx.prog.func(q3)
+    for reset in (False, True):
+        it3 = Interp(ctx.prog, assume=assume_map({"reset_index": reset}))
+        src = motl_frame(ctx.prog)
+        r3 = it3.run(q3, [src], {"reset_index": K(reset)})
+        if not isinstance(r3.ret, Frame):
+            raise Unsupported("convert_to_sg_motl does not return a table", fn3)
+        same_rows_same_order(ctx, q3, r3.ret, src, f"convert_to_sg_motl(reset_index={reset}) keeps the particle order", fn3, m3)
+
+
 def o47(ctx):
     roots = [CLS + ".write_out", CLS + ".read_in", CLS + ".convert_to_motl", CLS + ".convert_to_sg_motl",
              "cryomotl.emmotl2stopgap", "cryomotl.stopgap2emmotl"]
@@ -195,6 +238,7 @@ def _obligations():
         Obligation("O4.1", "StopgapMotl.pairs is the documented bijective renaming of the 14 shared fields", o41, floor=15),
         Obligation("O4.2", "convert_to_sg_motl / convert_to_motl copy each field to its renamed column; halfset parity; motl_idx", o42, floor=50),
         Obligation("O4.3", "write_out writes the current table (all option combinations), right block name, fillna, order kept", o43, floor=100),
+        Obligation("O4.4", "particle order: read_in returns the file block as it stands; both conversions keep the row order", o44, floor=20),
         Obligation("O4.7", "library calls on the STOPGAP conversion paths exist in the installed pandas", o47, floor=5),
         Obligation("O4.6a", "STAR writer on the via-file path: cell text reads back to the value (shared with C02)", _star.o23, floor=30),
         Obligation("O4.6b", "STAR reader on the via-file path: numeric conversion and block tables (shared with C02)", _star.o24, floor=5),
